@@ -145,6 +145,43 @@ def programs(tier):
     add("while:compound-cond", mk(f"c09_while_{len(out)}", [Let("i", Call("ref", Int(0))),
         Do(While(Bin("&&", Bin("<", tick(1, Call("ref_get", Var("i"))), Int(2)), tickb(2, Bool(True))), Block([Do(Call("ref_set", Var("i"), Bin("+", Call("ref_get", Var("i")), Int(1))))], Unit)))],
         Call("ref_get", Var("i"))))
+    # while: every *shape* of condition is re-evaluated (a bare call, a Ref read, a negation, a method call, a match, a block)
+    p_more = ("more", [("r", TRef(INT32)), ("n", INT32)], BOOL,
+              Block([println(Str("cond"))], Bin("<", Call("ref_get", Var("r")), Var("n"))))
+    bump_i = Do(Call("ref_set", Var("i"), Bin("+", Call("ref_get", Var("i")), Int(1))))
+    conds = {
+        "bare-call": Call("more", Var("i"), Int(3)),
+        "negated-call": Un("!", Un("!", Call("more", Var("i"), Int(3)))),
+        "ref-read": Call("ref_get", Var("going")),
+        "match": Match(Call("more", Var("i"), Int(2)), [(PBool(True), Bool(True)), (PBool(False), Bool(False))]),
+        "if": If(Call("more", Var("i"), Int(2)), Bool(True), Bool(False)),
+        "block": Block([println(Str("blk"))], Bin("<", Call("ref_get", Var("i")), Int(2))),
+    }
+    for cname, cond in conds.items():
+        p = mk(f"c09_whilec_{len(out)}", [Let("i", Call("ref", Int(0))), Let("going", Call("ref", Bool(True))),
+            Do(While(cond, Block([bump_i, Do(Call("ref_set", Var("going"), Bin("<", Call("ref_get", Var("i")), Int(3)))), println(Str("body"))], Unit)))],
+            Call("ref_get", Var("i")))
+        p.fn(*p_more)
+        add(f"while-cond:{cname}", p)
+    # short-circuit guards whose right operand has only operators (no call): a failing division must not run
+    for op, lhs_decides in (("&&", False), ("||", True)):
+        for rhs_name, rhs in (("div", Bin(">", Bin("/", Var("a"), Var("b")), Int(1))),
+                              ("div-nested", Bin(">", Bin("+", Bin("/", Var("a"), Var("b")), Bin("*", Var("a"), Int(2))), Int(1))),
+                              ("div-eq", Bin("==", Bin("/", Int(10), Var("b")), Var("a")))):
+            guard = Bin("!=" if op == "&&" else "==", Var("b"), Int(0))
+            f = ("guarded", [("a", INT32), ("b", INT32)], BOOL, Bin(op, guard, rhs))
+            p = mk(f"c09_guard_{len(out)}", [println(Call("bool_to_string", Call("guarded", Int(10), Int(2)))),
+                                              println(Call("bool_to_string", Call("guarded", Int(10), Int(0)))),
+                                              println(Call("bool_to_string", Call("guarded", Int(1), Int(5))))])
+            p.fn(*f)
+            add(f"guard:{op}:{rhs_name}", p)
+        # the same inside a condition and a let
+        f = ("pick2", [("a", INT32), ("b", INT32)], INT32,
+             Block([Let("ok", Bin(op, Bin("!=" if op == "&&" else "==", Var("b"), Int(0)), Bin(">", Bin("/", Var("a"), Var("b")), Int(1))))],
+                   If(Bin(op, Bin("!=" if op == "&&" else "==", Var("b"), Int(0)), Bin("<", Bin("/", Var("a"), Var("b")), Int(100))), If(Var("ok"), Int(1), Int(2)), Int(3))))
+        p = mk(f"c09_guardif_{len(out)}", [println(show_int(Call("pick2", Int(10), Int(2)))), println(show_int(Call("pick2", Int(10), Int(0))))])
+        p.fn(*f)
+        add(f"guard-in-if:{op}", p)
     # Ref updates interleaved with reads in one expression
     add("ref:read-write-read", mk(f"c09_ref_{len(out)}", [Let("r", Call("ref", Int(1)))],
         Call("add3", Call("ref_get", Var("r")), Block([Do(Call("ref_set", Var("r"), Int(5)))], Int(0)), Call("ref_get", Var("r")))))
